@@ -12,7 +12,7 @@
    "S <method> <order> <entry> <0|1>" (only failures for R and S), "D dispatch_ok=<0|1>",
    "K <callback class> <has the dummy typedef>", "D callback_classes_ok=<0|1>", "D derefs_ok=<0|1> sites=<n>", "X <file> | <snippet>" for every dereference of a
    data iterator that is not a callback argument, "D adapters_ok=<0|1> classes=<n>", "A <adapter class> <member> <0|1>" for the members of
-   every adapter class that fails its decider, "D callsites_ok=<0|1> sites=<n>", "Y <file> | <snippet>" for every callback call
+   every adapter class that fails its decider, "D callsites_ok=<0|1> callsites=<n>", "Y <file> | <snippet>" for every callback call
    whose data argument is not a dereference of a data iterator, "END". *)
 open C13_model
 
@@ -120,8 +120,10 @@ let summary () =
       if not (class_ok c) then
         List.iter (fun mb -> Printf.printf "A %s %s %s\n" (of_coq c.ac_name) (of_coq mb.am_name) (b01 (member_ok c fam mb)))
           c.ac_members) a.ad_classes;
-  Printf.printf "D callsites_ok=%s sites=%d\n" (b01 (callsites_ok a)) (List.length a.ad_callsites);
+  Printf.printf "D callsites_ok=%s callsites=%d\n" (b01 (callsites_ok a)) (List.length a.ad_callsites);
   List.iter (fun ((f, sn), ok) -> if not ok then Printf.printf "Y %s | %s\n" (of_coq f) (of_coq sn)) a.ad_callsites;
+  let rec nat_int = function O -> 0 | S n -> 1 + nat_int n in
+  Printf.printf "D invoked_ok=%s unresolved=%d\n" (b01 (invoked_ok u)) (nat_int (unresolved_count u));
   print_endline "END"
 
 let () =
